@@ -90,17 +90,27 @@ class LeafNode(TreeNode):
         """
         printer.write(repr(self.object))
 
+    @staticmethod
+    def _order_key(obj):
+        """A key that totally orders wrapped objects of mixed types: null, then numbers, then strings, then the rest."""
+        if obj is None:
+            return 0, "", 0
+        elif isinstance(obj, (int, float)):
+            return 1, "", obj
+        elif isinstance(obj, str):
+            return 2, "", obj
+        else:
+            return 3, type(obj).__name__, str(obj)
+
     def __lt__(self, other):
         if isinstance(other, LeafNode):
-            try:
-                return self.object < other.object
-            except TypeError:
-                return str(self.object) < str(other.object)
-        else:
-            try:
-                return self.object < other
-            except TypeError:
-                return str(self.object) < str(other)
+            other = other.object
+        try:
+            return self.object < other
+        except TypeError:
+            # Comparing the string representations instead is not transitive together with the native order
+            # (9 < 100, "100" < "50", "50" < "9"), which made sorted() depend on the order of its input
+            return LeafNode._order_key(self.object) < LeafNode._order_key(other)
 
     def __eq__(self, other):
         if isinstance(other, LeafNode):
